@@ -8,6 +8,12 @@ V_crc(e) ==
   IN  IF ~IsInt(e.res, want) THEN (IF e.enc = 1 THEN "crc_encode_parity" ELSE "crc_remainder")
       ELSE "ok"
 
+\* a sequence of crc() calls made one after the other: every result depends on its own argument only
+V_crc_seq(e) ==
+  IF e.res.t # "seq" \/ Len(e.res.v) # Len(e.calls) THEN "crc_sequence_raised"
+  ELSE LET bad == {k \in 1..Len(e.calls) : V_crc([frame |-> e.calls[k].frame, enc |-> e.calls[k].enc, res |-> e.res.v[k]]) # "ok"}
+       IN  IF bad = {} THEN "ok" ELSE "crc_depends_on_earlier_calls"
+
 \* icao(): e.text is the hex text exactly as passed (any letter case)
 IcaoWant(text) ==
   LET f == BytesOfText(text)
